@@ -226,12 +226,12 @@ def hideSel (s : State) (i : Nat) : State :=
   | some j => { s with selected := j }
   | none => s
 
-/-- models common.rs::hide_sheet: the selection moves to the next visible sheet *before* the index
-    is validated -/
+/-- models common.rs::hide_sheet (after fix F04a–h: the index is validated first, a failing
+    call changes nothing; then the selection moves to the next visible sheet) -/
 def hideSheet (s : State) (i : Nat) : State :=
   let s1 := hideSel s i
   match s.sheets[i]? with
-  | none => s1
+  | none => s
   | some sh =>
     { push s1 (.setState i sh.visible false) with
       sheets := modifyAt s1.sheets i (fun x => { x with visible := false }) }
